@@ -405,6 +405,35 @@ def run(tier, replay=None):
         progs.append([("jump", ("reg", rn, rt))])
     progs.append([("jump", ("bin", "+", ("reg", "HEX_REG_ALIAS_PC", (False, 32)), ("imm", "riV", (True, 32))))])
     progs.append([("decl", "uint32_t", (False, 32), "v1", ("reg", "HEX_REG_ALIAS_PC", (False, 32)))])
+    # several memory accesses / jumps in ONE behaviour: each access keeps its own width, signedness and address, each jump
+    # records its own target and the taken flag (same width with both signednesses, in sequence, in the two arms of an if,
+    # around an update of EA; jumps in both arms, in an else-if chain, under two separate ifs)
+    def _ld(sg, w):
+        return ("load", ("int" if sg == "s" else "uint") + f"{w}_t", (sg == "s", w), sg, w)
+    _ea = ("var", "EA", (False, 32))
+    _ea_set = ("assign", _ea, "=", ("reg", "RsV", (True, 32)))
+    _c1 = ("cmp", ">", ("reg", "RtV", (True, 32)), ("lit", "0", 0, (True, 32)))
+    _c2 = ("cmp", "<", ("reg", "RsV", (True, 32)), ("lit", "8", 8, (True, 32)))
+    _v1 = ("var", "v1", (True, 64))
+    for w in (8, 16, 32, 64):
+        for a_, b_ in ("su", "us", "ss", "uu"):
+            if w == 64 and a_ == b_:
+                continue
+            progs.append([_ea_set, ("decl", "int64_t", (True, 64), "v1", _ld(a_, w)), ("decl", "int64_t", (True, 64), "v2", _ld(b_, w))])
+        for a_, b_ in ("su", "us"):
+            progs.append([_ea_set, ("decl", "int64_t", (True, 64), "v1", None),
+                          ("if", _c1, [("assign", _v1, "=", _ld(a_, w))], [("assign", _v1, "=", _ld(b_, w))])])
+            progs.append([_ea_set, ("decl", "int64_t", (True, 64), "v1", _ld(a_, w)),
+                          ("assign", _ea, "=", ("bin", "+", _ea, ("lit", "4", 4, (True, 32)))),
+                          ("decl", "int64_t", (True, 64), "v2", _ld(b_, w))])
+    for w1, w2 in ((8, 16), (16, 8), (32, 8), (16, 64)):
+        progs.append([_ea_set, ("decl", "int64_t", (True, 64), "v1", _ld("s", w1)), ("decl", "int64_t", (True, 64), "v2", _ld("u", w2))])
+    _ja, _jb, _jc = ("reg", "RsV", (True, 32)), ("reg", "RtV", (True, 32)), ("bin", "+", ("reg", "HEX_REG_ALIAS_PC", (False, 32)), ("imm", "riV", (True, 32)))
+    progs.append([("if", _c1, [("jump", _ja)], [("jump", _jb)])])
+    progs.append([("if", _c1, [("jump", _jc)], [("jump", _ja)])])
+    progs.append([("if", _c1, [("jump", _ja)], [("if", _c2, [("jump", _jb)], [("jump", _jc)])])])
+    progs.append([("if", _c1, [("jump", _ja)], None), ("if", _c2, [("jump", _jb)], None)])
+    progs.append([("if", _c2, [("jump", _jb)], None), ("jump", _jc)])
     items = [{"ast": a, "src": gen.prog_src(a), "features": gen.features(a)} for a in progs]
     pp = rc.parse_programs([it["src"] for it in items])
     rc.close_pool()
